@@ -112,14 +112,20 @@ INV_EveryValueHasARule(m) ==
 (* ================================================================================================================ *)
 LineClasses == {"eliot",     \* a JSON object with task_uuid, task_level, timestamp
                 "missing",   \* a JSON object lacking at least one of them
+                "mistyped",  \* a JSON object that has all three, but not with the types Eliot writes (task_level 5 / [] /
+                             \* ["a"], timestamp "x" / null / 1e20 / NaN, task_uuid not a string, ...)
                 "scalar",    \* a JSON number / string / boolean
                 "array",     \* a JSON array
                 "null",      \* JSON null
                 "text",      \* text that is not JSON
                 "badutf8",   \* bytes that are not UTF-8
                 "empty"}     \* an empty (or blank) line
-IsJson(c)   == c \in {"eliot", "missing", "scalar", "array", "null"}
-BlockFor(c) == IF ~IsJson(c) THEN "NotJSON" ELSE IF c # "eliot" THEN "NotEliot" ELSE "Render"
+IsJson(c)   == c \in {"eliot", "missing", "mistyped", "scalar", "array", "null"}
+(* A mistyped object is EITHER rendered (if the formatter can make sense of it) OR reported as not an Eliot message: the *)
+(* statement does not say which, so the block kind is the disjunction; what it excludes is "no block" and "stop".       *)
+BlockFor(c) == IF ~IsJson(c) THEN "NotJSON"
+               ELSE IF c = "mistyped" THEN "RenderOrNotEliot"
+               ELSE IF c # "eliot" THEN "NotEliot" ELSE "Render"
 Formats     == {"pretty", "compact"}
 PPCases     == {[fmt |-> f, stream |-> s] : f \in Formats, s \in SeqsUpTo(LineClasses, MaxLines)}
 
@@ -134,6 +140,7 @@ INV_PP == Part = "pp" =>
     /\ Len(out) = pos                                                   \* exactly one block per line consumed
     /\ \A i \in 1..pos : (out[i] = "Render") <=> (case.stream[i] = "eliot")
     /\ \A i \in 1..pos : (out[i] = "NotJSON") <=> ~IsJson(case.stream[i])
+    /\ \A i \in 1..pos : (out[i] = "RenderOrNotEliot") <=> (case.stream[i] = "mistyped")
     /\ done => pos = Len(case.stream)                                   \* it only ends at the end of the input
 
 (* ================================================================================================================ *)
